@@ -29,7 +29,8 @@ def step (line : String) : String :=
   | "F" :: name :: flag :: opt :: strs =>
     match GenS.dispatch resolveStub name (strs.map decStr) (flag == "1") (if opt == "N" then none else some (decStr opt)) with
     | none => "nofunc"
-    | some (.ok r) => "str " ++ encStr r
+    | some (.ok (some r)) => "str " ++ encStr r
+    | some (.ok none) => "none"
     | some (.error e) => "err " ++ showExc e
   | _ => "bad-op"
 
